@@ -240,6 +240,41 @@ func c07Omitted(t *rapid.T) {
 	sig := hex.EncodeToString(w.PKI.QeSig.Key.SignRaw(partial))
 	twin := rapid.SampledFrom(gen.FoldVariants("enclaveIdentity")).Draw(t, "twinSpelling")
 	var body string
+	if rapid.IntRange(0, 2).Draw(t, "afterAFailedDecode") == 0 {
+		// no twin in the response: instead, the PREVIOUS response the process saw carried the complete, favourable identity
+		// and failed to decode at its very last member (so that everything before it had been read). What a response
+		// that was refused said is no part of the next one.
+		tail := rapid.SampledFrom([]string{`"nextUpdate":"soon"`, `"issueDate":20240101`, `"nextUpdate":{"$date":1}`, `"version":"two"`, `"tcbEvaluationDataNumber":"x"`}).Draw(t, "undecodableLastMember")
+		key := tail[1 : strings.Index(tail[1:], `"`)+1]
+		var fm map[string]json.RawMessage
+		_ = json.Unmarshal(full, &fm)
+		var sb strings.Builder
+		sb.WriteString("{")
+		for _, k := range []string{"id", "version", "issueDate", "nextUpdate", "tcbEvaluationDataNumber", "miscselect", "miscselectMask", "attributes", "attributesMask", "mrsigner", "isvprodid", "tcbLevels"} {
+			if k == key {
+				continue
+			}
+			fmt.Fprintf(&sb, "%q:%s,", k, fm[k])
+		}
+		sb.WriteString(tail + "}")
+		bad := sb.String()
+		w.Resp[gen.QeIdentityURL] = gen.Response{Header: map[string][]string{gen.HdrQeID: {gen.IssuerChainHeader(w.PKI.QeSig, w.PKI.Root)}}, Body: []byte(`{"enclaveIdentity":` + bad + `,"signature":"` + hex.EncodeToString(w.PKI.QeSig.Key.SignRaw([]byte(bad))) + `"}`)}
+		o0 := w.Options(gen.LvlColl, w.NewGetter(), nil)
+		gen.Eval()
+		if v0 := gen.Call(func() error { return verify.RawTdxQuote(w.Raw, o0) }); v0.Panicked() {
+			gen.Class("omitted:pre-call-crashed")
+		}
+		w.Resp[gen.QeIdentityURL] = gen.Response{Header: map[string][]string{gen.HdrQeID: {gen.IssuerChainHeader(w.PKI.QeSig, w.PKI.Root)}}, Body: []byte(`{"enclaveIdentity":` + string(partial) + `,"signature":"` + sig + `"}`)}
+		o := w.Options(gen.LvlColl, w.NewGetter(), nil)
+		gen.Eval()
+		v := gen.Call(func() error { return verify.RawTdxQuote(w.Raw, o) })
+		gen.Class("omitted-after-a-failed-decode:" + drop)
+		gen.NonTrivial("omitted-after", drop, tail, w.Raw[:64])
+		if v.Accepted() {
+			gen.Fail(t, gen.Violation{Key: "accepts-bad-qe:signed-identity-lacks-" + drop + ":after-a-refused-response", Oracle: "accepted only if the QE report matches the (signed) QE identity under its masks and the selected QE level is UpToDate", Detail: fmt.Sprintf("the signed identity has no %s; the response before it (refused: its last member %s does not decode) carried a complete identity; the quote is accepted", drop, tail), Replay: w.CaseFile(gen.LvlColl, nil, nil, nil, "reject")})
+		}
+		return
+	}
 	switch rapid.IntRange(0, 2).Draw(t, "order") {
 	case 0:
 		body = `{"` + twin + `":` + string(full) + `,"enclaveIdentity":` + string(partial) + `,"signature":"` + sig + `"}`
